@@ -60,7 +60,7 @@ fn shapes() -> Vec<(&'static str, Value, Value)> {
 
 fn cases14(_ob: &str) -> Vec<String> {
     let mut out: Vec<String> = (0..shapes().len()).map(|i| format!("shape:{}", i)).collect();
-    for i in 0..17 { out.push(format!("alt:{}", i)); }
+    for i in 0..26 { out.push(format!("alt:{}", i)); }
     out
 }
 fn data_err<T: std::fmt::Debug>(r: Result<T, serde_lexpr::Error>, what: &str) -> Option<String> {
@@ -86,6 +86,15 @@ fn check14_inner(case: &str) -> Option<String> {
             8 => data_err(from_value::<Vec<i32>>(&Value::append(vec![Value::from(1), Value::from(2)], Value::Nil)), "(1 2 . #nil) as sequence"),
             9 => data_err(from_value::<(i32, i32)>(&Value::append(vec![Value::from(1), Value::from(2)], Value::Nil)), "(1 2 . #nil) as tuple"),
             6 => data_err(from_value::<Tup>(&Value::append(vec![Value::from(1), Value::from("a")], Value::from(3))), "improper list as tuple struct"),
+            17 => { let v = Value::Vector(vec![].into()); match from_value::<Vec<i32>>(&v) { Ok(x) if x.is_empty() => None, r => Some(format!("empty vector #() as sequence: {:?}", r.map_err(|e| e.to_string()))) } }
+            18 => { match from_value::<Vec<i32>>(&Value::Null) { Ok(x) if x.is_empty() => None, r => Some(format!("empty list as sequence: {:?}", r.map_err(|e| e.to_string()))) } }
+            19 => { let v = list(vec![list(vec![Value::from(1)]), Value::Vector(vec![].into()), Value::Null]); match from_value::<Vec<Vec<i32>>>(&v) { Ok(x) if x == vec![vec![1], vec![], vec![]] => None, r => Some(format!("((1) #() ()) as Vec<Vec<i32>>: {:?}", r.map_err(|e| e.to_string()))) } }
+            20 => { let v = Value::Vector(vec![Value::from(1), Value::from("a")].into()); match from_value::<Tup>(&v) { Ok(_) => None, r => Some(format!("vector as tuple struct: {:?}", r.map_err(|e| e.to_string()))) } }
+            21 => { let v = list(vec![Value::from(1), Value::from("a")]); match from_value::<Tup>(&v) { Ok(_) => None, r => Some(format!("proper list as tuple struct: {:?}", r.map_err(|e| e.to_string()))) } }
+            22 => data_err(from_value::<Option<i32>>(&list(vec![Value::from(1), Value::from(2)])), "(1 2) as Option<i32>"),
+            23 => data_err(from_value::<Option<Option<i32>>>(&list(vec![Value::Null, Value::from(5)])), "(() 5) as Option<Option<i32>>"),
+            24 => { match from_value::<Option<i32>>(&list(vec![Value::from(1)])) { Ok(Some(1)) => None, r => Some(format!("(1) as Option<i32>: {:?}", r.map_err(|e| e.to_string()))) } }
+            25 => { match to_value(&0i32) { Ok(v) if v == Value::from(0u64) && v.as_u64() == Some(0) && v == lexpr::from_str("0").unwrap() => None, r => Some(format!("0i32 serializes as {:?}, not the integer 0 the reader yields", r.map_err(|e| e.to_string()))) } }
             11 => data_err(from_value::<Vec<u64>>(&Value::from(u64::MAX)), "the integer 2^64-1 as sequence"),
             12 => data_err(from_value::<Vec<u64>>(&Value::append(vec![Value::from(1), Value::from(2)], Value::from(u64::MAX))), "(1 2 . 18446744073709551615) as sequence"),
             13 => data_err(from_value::<(u64, u64)>(&Value::from(1u64 << 63)), "the integer 2^63 as tuple"),
